@@ -30,7 +30,7 @@ ASSUMPTIONS = [
     "points with y=0 (2-torsion) are a recorded known finding class (KNOWN_FINDINGS.txt)",
 ]
 
-REPCLASS = {"INFcopy": "inf", "JZ0": "z0", "J1": "z1", "Jz2": "z", "Jzm1": "z", "Jz3": "z", "Jneg": "negz1", "Jnegz3": "negz",
+REPCLASS = {"INFcopy": "inf", "JZ0": "z0", "JZ0b": "z0", "J1": "z1", "Jz2": "z", "Jzm1": "z", "Jz3": "z", "Jneg": "negz1", "Jnegz3": "negz",
             "Jacc": "acc", "L": "legacy", "INF": "inf"}
 
 
@@ -42,6 +42,9 @@ def _mk(cf, c, P, rep, helper, twin=False):
         if rep == "JZ0":
             # the identity in Jacobian form: (t^2 : t^3 : 0), here t = 2
             return PointJacobi(cf if not twin else CurveFp(c[0], c[1], c[2]), 4 % c[0], 8 % c[0], 0)
+        if rep == "JZ0b":
+            # another spelling of the same identity (t = 1)
+            return PointJacobi(cf if not twin else CurveFp(c[0], c[1], c[2]), 1, 1, 0)
         return INFINITY
     if twin:
         # the same curve held in a second, equal CurveFp object (unpickled point, user-built curve)
@@ -71,8 +74,9 @@ def check_pair(ctx, c, P, Q, rp, rq, hp=None, hq=None, enum=False):
     y0 = _y0(P, Q, want)
     case = {"kind": "pair", "c": list(c), "P": P and list(P), "Q": Q and list(Q), "rp": rp, "rq": rq,
             "hp": hp and list(hp), "hq": hq and list(hq)}
-    rc = REPCLASS[(rp if rp == "JZ0" else "INF") if P is None else rp] + "+" + REPCLASS[(rq if rq == "JZ0" else "INF") if Q is None else rq]
-    if P is None and Q is None and "JZ0" not in (rp, rq):
+    JZ = ("JZ0", "JZ0b")
+    rc = REPCLASS[(rp if rp in JZ else "INF") if P is None else rp] + "+" + REPCLASS[(rq if rq in JZ else "INF") if Q is None else rq]
+    if P is None and Q is None and rp not in JZ and rq not in JZ:
         if "INFcopy" in (rp, rq):
             return      # two neutral elements: nothing of PointJacobi is involved
     ctx.case_sample(case)
@@ -194,8 +198,8 @@ def sweep_curve(ctx, c, reps):
             check_unary(ctx, c, P, rp, helpers[P], enum=True)
     for P in allp:
         for Q in allp:
-            rps = reps if P is not None else ("INF", "INFcopy", "JZ0")
-            rqs = reps if Q is not None else ("INF", "INFcopy", "JZ0")
+            rps = reps if P is not None else ("INF", "INFcopy", "JZ0", "JZ0b")
+            rqs = reps if Q is not None else ("INF", "INFcopy", "JZ0", "JZ0b")
             for rp in rps:
                 for rq in rqs:
                     check_pair(ctx, c, P, Q, rp, rq, helpers.get(P), helpers.get(Q), enum=True)
@@ -422,10 +426,17 @@ def units(tier, seed):
     names = gen.NAMED
     for i in range(4):
         out.append(("named", {"names": names[i::4], "examples": 500 if q else 8000}))
+    for i in range(3):
+        out.append(("history", {"curve": ("t13", "t23a", "t13")[i], "examples": 150 if tier == "quick" else 4000, "steps": 40, "label": "h%d" % i}))
     return out
 
 
 def run_unit(ctx, name, **kw):
+    if name == "history":
+        # histories over live point objects (cached / in-place state, failed operations): the C19 machine
+        from . import c19
+        c19.run_unit(ctx, "machine", **kw)
+        return
     if name == "sweep":
         for c in kw["curves"]:
             sweep_curve(ctx, tuple(c), tuple(kw["reps"]))
@@ -467,6 +478,9 @@ def replay_ordered(ctx, case):
 
 
 def replay(ctx, case):
+    if case.get("kind") == "history":
+        from . import c19
+        return c19.replay(ctx, case)
     k = case["kind"]
     t = lambda v: None if v is None else tuple(v)
     if k == "ordered":
